@@ -534,8 +534,7 @@ class MQTTProtocol(MQTTBaseProtocol):
         Refills the Publisher transmission window from the queue 
         '''
         cnx = self.addr
-        N = min(self._window - len(self.factory.windowPublish[cnx]), len(self.factory.queuePublishTx[cnx]))
-        for i in range(0,N):
+        while self.factory.queuePublishTx[cnx] and len(self.factory.windowPublish[cnx]) < self._window:
             request = self.factory.queuePublishTx[cnx].popleft()
             if request.msgId:   # only form QoS 1 & 2
                 self.factory.windowPublish[cnx][request.msgId] = request
